@@ -443,7 +443,7 @@ class Engine:
         if k == "int":
             return SInt(fv.fresh_int(name))
         if k == "float":
-            return SFloat(fv.fresh(name, R), fv.fresh(name + "_ninf", B), FALSE)
+            return SFloat(fv.fresh(name, R), fv.fresh(name + "_ninf", B), fv.fresh(name + "_nan", B))
         if k == "bool":
             return SBool(fv.fresh(name, B))
         if k == "arr":
@@ -457,6 +457,8 @@ class Engine:
         raise VerifError("result type %r" % (ty,))
 
     def call_contract(self, fv, st, cd, node, prog):
+        if cd.options.get("trusted"):
+            X.USED.add("ASSUMED contract (bounded run-time check only): %s" % cd.qualname)
         short = cd.qualname.rsplit(".", 1)[1]
         ordn = fv.call_counts.get(short, 0)
         # anchors are static per call *site*: use ordinal of the site in source order
@@ -493,6 +495,12 @@ class Engine:
         for i, r in enumerate(cd.requires):
             g = fv.to_bool(fv.ev(r, cs, False))
             fv.oblige("pre@" + short, "site%d/requires%d" % (site, i), g, st, node)
+        # float parameters are modelled NaN-free inside the callee: the caller must establish it
+        for pn, ty in cd.params:
+            if ty[0] == "float" and pn not in cd.options.get("nanable", []):
+                av = bound.get(pn)
+                if isinstance(av, SFloat) and not z3.is_false(z3.simplify(av.nan)):
+                    fv.oblige("pre@" + short, "site%d/%s-not-nan" % (site, pn), z3.Not(av.nan), st, node)
         if cd.raises is not None:
             g = fv.to_bool(fv.ev(cd.raises, cs, False))
             fv.oblige("no-raise@" + short, "site%d" % site, z3.Not(g), st, node)
@@ -512,8 +520,6 @@ class Engine:
                 raise VerifError("modifies(%s) of non-array argument" % m)
         cs.heap = st.heap
         rty = cd.ret
-        if rty[0] == "opt":
-            raise VerifError("optional return type")
         res = self.result_for(fv, st, cd, bound, rty, short)
         if isinstance(res, SInt) and cd.options.get("machine_ints"):
             st.assume(z3.And(res.e >= INT64_MIN, res.e <= INT64_MAX))
@@ -538,6 +544,13 @@ class Engine:
     def result_for(self, fv, st, cd, bound, rty, short):
         """fresh result; Opt[...] components of tuple results follow the None-ness of the
         parameter of the same name (e.g. `cache`)."""
+        if rty[0] == "opt":
+            pname = cd.options.get("opt_result", {}).get("")
+            if pname is None:
+                raise VerifError("contract %s: Opt result needs option opt_result" % cd.qualname)
+            if isinstance(bound[pname], SNone):
+                return NONE
+            return self.make_result(fv, st, rty[1], short + "_res")
         if rty[0] == "tup":
             items = []
             for i, t in enumerate(rty[1]):
